@@ -88,7 +88,7 @@ fn dispatch<const KIND: usize, const CONNECT: bool>(uri: &'static str) {
 }
 
 /*@gen
-{"name": "c10_dispatch_{0}_{1}", "call": "dispatch::<{2}, {3}>(\"{4}\")", "unwind": 40, "stubs": ["fmt", "utf8", "nofree"], "core": true,
+{"name": "c10_dispatch_{0}_{1}", "call": "dispatch::<{2}, {3}>(\"{4}\")", "unwind": 40, "stubs": ["fmt", "utf8", "nofree", "memchr"], "core": true,
  "bound": "request {1} (CONNECT, or GET) with authority '{4}'",
  "desc": "dispatch on authority and method: reserved x CONNECT -> health 200+eof / datagram multiplexer + one 200; reserved x other -> one 502; everything else -> TCP connect with the right destination (or refusal of CONNECT without port); never zero or two responses",
  "encodes": ["http_downstream::PendingRequest::promote_to_next_state", "http_downstream::DatagramMultiplexer::promote_to_next_state", "http_downstream::TcpConnection::destination"],
@@ -118,7 +118,7 @@ fn lookalike(uri: &'static str) {
 }
 
 /*@gen
-{"name": "c10_lookalike_{0}", "call": "lookalike(\"{1}\")", "unwind": 40, "stubs": ["fmt", "utf8", "nofree"], "core": false,
+{"name": "c10_lookalike_{0}", "call": "lookalike(\"{1}\")", "unwind": 40, "stubs": ["fmt", "utf8", "nofree", "memchr"], "core": false,
  "bound": "CONNECT with authority '{1}'",
  "desc": "authorities that differ from the reserved names by case, suffix or port never lose their response (no panic, no missing response)",
  "encodes": ["http_downstream::PendingRequest::promote_to_next_state"],
